@@ -11,22 +11,28 @@
 //	      drop@p | dup@p. For on-disk files p ranges over a stated position set (quick: metadata header + first/last
 //	      64 bytes of the body; thorough: whole files up to 4 KiB); the targets that open a store or a file per
 //	      input (chunk 256) leave out set64 and dup in the quick tier;
-//	tok   SQL text: all token sequences of length <= 4 (quick) / 5 (thorough) over the 26-token alphabet
-//	      sqlTokens, plus every single-token deletion and duplication of the corpus sqlCorpus.
+//	tok   SQL text: all token sequences of length <= 3 (quick) / 4 (thorough) over the 26-token alphabet
+//	      sqlTokens, plus every single-token deletion and duplication of the 33 statements of sqlCorpus.
 //
 // Oracle (only what the property states): (1) no panic (lib.Catch) and no process crash (fatal error,
-// panic in a background goroutine); (2) bounded memory: TotalAlloc delta of one call <= 64 MiB + 64*len(input);
-// (3) bounded time: a call that makes no progress for 30 s is killed and retried, it is a violation only if it
-// hangs 3 times out of 3 (otherwise c.CapHit); (4) ReplicateTx: a rejected input leaves (committed id,
-// precommitted id, Alh) unchanged and the valid transaction is still accepted afterwards.
-// Returned errors / values are NOT compared with anything.
+// panic in a background goroutine); (2) bounded memory: allocation (runtime/metrics /gc/heap/allocs:bytes delta,
+// i.e. MemStats.TotalAlloc, single-threaded child) of one call <= 64 MiB + 64*len(input) (+1 MiB measurement
+// slack); (3) bounded time: a call without progress for 30 s is killed and retried, it is a violation only if
+// it hangs 3 times out of 3 (otherwise c.CapHit); structural step bounds in the stream / pgsql readers
+// ("VIOL steps"); (4) ReplicateTx: a rejected input leaves (committed id, precommitted id, Alh) unchanged and
+// the valid transaction is still accepted and committed afterwards. Returned errors / values are NOT compared.
 //
 // Isolation: inputs run in single-threaded child processes (same binary, C16_CHILD set). The parent hands
-// out jobs, reads results, and attributes crashes / hangs through a shared progress cell. A child that saw an
-// allocation violation exits and is restarted (a reused huge span costs seconds to zero).
+// out jobs (phases: raw<=1, raw=2, alterations + SQL text, raw=3, alterations for the targets that open a store
+// or file per input; every phase is completed before the next),
+// reads results and attributes crashes / hangs through a shared progress cell; a crash must reproduce in a
+// fresh process, a panic must reproduce in the same process, otherwise it is only a CapHit. Allocations beyond
+// the budget are slow here, so a job is abandoned (CapHit) after 3 (quick) / 32 (thorough) of them, and a
+// target whose raw inputs already do that is not given longer raw inputs; see gcPolicy for the child handling.
 //
 // One violation is reported per (class, target, panicking function) with the minimal input of the enumerated
-// space: "panic target=<name> at=<func> input=<hex | alter=<op>@<pos> of <encoding>>".
+// space: "panic target=<name> at=<func> input=<hex | alter=<op>@<pos> of <encoding>>"; classes: panic, crash,
+// alloc, hang, partial-effect, steps. C16_DUMP=<file> writes every group, C16_TIMING=1 prints progress.
 package main
 
 import (
@@ -54,27 +60,28 @@ import (
 )
 
 const (
-	allocBase = 64 << 20
+	allocBase  = 64 << 20
 	allocSlack = 1 << 20 // measurement noise (runtime bookkeeping, ~0.2 MiB observed) is not a violation
-	allocBig  = 2 << 20 // see gcPolicy
-	// calls that allocate more than allocBig are slow here (page faults): after this many of them (quick /
-	// thorough) the rest of the job is skipped and reported through CapHit
+	allocBig   = 2 << 20 // a batch that allocated more than this is measured again input by input
+	// allocations beyond the budget are slow here (address space set-up, page faults): after this many of them
+	// (quick / thorough) the rest of the job is skipped and reported through CapHit
 	allocCapQuick, allocCapThorough = 3, 32
-	hangAfter = 30 * time.Second
+	hangAfter                       = 30 * time.Second
 )
 
 // gcPolicy: a huge allocation that overlaps memory the runtime has used and freed before must be zeroed, which
-// costs seconds per GiB here. A child therefore exits after the first call that allocated more than allocBig
-// and the parent finishes that job with a child whose collector is off from the start (C16_GCOFF): nothing is
-// ever freed there (huge buffers are never touched, so they cost address space only); such a child is
-// replaced after 1 GiB of garbage and at the end of the job.
+// costs seconds per GiB here. Children therefore (a) run with an address-space cap (see childMain) so that
+// anything much larger than the budget fails fast, and (b) exit after the first call that allocated more
+// than the budget; the parent continues with a child whose collector is off from the start (C16_GCOFF, no
+// cap): nothing is ever freed there, huge untouched buffers cost address space only. Such a child is replaced
+// by a normal one after 512 MiB of (possibly touched) garbage.
 var gcOff, gcDirty = false, uint64(0)
 
-func gcPolicy(alloc uint64, beforeExit func()) {
-	if !gcOff && alloc <= allocBig {
+func gcPolicy(alloc uint64, overBudget bool, beforeExit func()) {
+	if !gcOff && !overBudget {
 		return
 	}
-	if gcDirty += min(alloc, allocBig); !gcOff || gcDirty > 512<<20 {
+	if gcDirty += min(alloc, allocBase); !gcOff || gcDirty > 512<<20 {
 		beforeExit()
 		os.Exit(5)
 	}
@@ -83,7 +90,7 @@ func gcPolicy(alloc uint64, beforeExit func()) {
 // crash/alloc/hang events tolerated per job before the rest of the job is skipped (raw families: every
 // following input is likely to be one more event)
 func jobEventCap(f *family) int {
-	if f.phase == 2 {
+	if !f.raw() {
 		return 12
 	}
 	return 4
@@ -114,7 +121,7 @@ type target struct {
 type family struct {
 	t     *target
 	name  string
-	phase int // 0 raw<=1, 1 raw=2, 2 alterations / tokens, 3 raw=3
+	phase int // 0 raw<=1, 1 raw=2, 2 alterations / SQL text, 3 raw=3, 4 alterations of the slow (store / file per input) targets
 	n     int
 	gen   func(i int) (in []byte, desc string)
 	e     *enc
@@ -135,15 +142,15 @@ type vmsg struct { // child -> parent
 }
 
 type rmsg struct {
-	Seq      int
-	Evals    int64
-	Skipped  int64
-	Outcomes map[string]int64
-	Flaky    []string
-	Groups   map[string]int64 // violation group (class|site) -> number of inputs of this job in it
-	Partial  bool             // the child exits after this line (gcPolicy); the parent resumes the job
-	Stopped   int // >0: the job was abandoned before this index after allocCap big allocations
-	BigAllocs int // calls of this (part of the) job that allocated more than allocBig
+	Seq       int
+	Evals     int64
+	Skipped   int64
+	Outcomes  map[string]int64
+	Flaky     []string
+	Groups    map[string]int64 // violation group (class|site) -> number of inputs of this job in it
+	Partial   bool             // the child exits after this line (gcPolicy); the parent resumes the job
+	Stopped   int              // >0: the job was abandoned before this index after allocCap big allocations
+	BigAllocs int              // calls of this (part of the) job that allocated more than the budget
 }
 
 type line struct {
@@ -152,6 +159,8 @@ type line struct {
 }
 
 var targets []*target
+
+func (f *family) raw() bool { return f.phase == 0 || f.phase == 1 || f.phase == 3 }
 
 func findFam(t, f string) *family {
 	for _, tg := range targets {
@@ -297,7 +306,7 @@ func altFams(t *target, e *enc, chunk int, skip map[string]bool) (fs []*family) 
 	}
 	for _, k := range kinds {
 		ops := byKind[k]
-		fs = append(fs, &family{t: t, name: "alt:" + e.Name + "/" + k, phase: 2, n: len(ops), e: e, batch: 1, chunk: chunk, gen: func(i int) ([]byte, string) {
+		fs = append(fs, &family{t: t, name: "alt:" + e.Name + "/" + k, phase: map[bool]int{false: 2, true: 4}[chunk <= 256], n: len(ops), e: e, batch: 1, chunk: chunk, gen: func(i int) ([]byte, string) {
 			return applyOp(e.B, ops[i]), fmt.Sprintf("alter=%s of %s", ops[i], e.Name)
 		}})
 	}
@@ -444,16 +453,15 @@ func childMain() {
 				}
 				r.Outcomes[n]++
 			}
-			if measure && alloc > allocBase+64*uint64(len(in))+allocSlack {
+			over := measure && alloc > allocBase+64*uint64(len(in))+allocSlack
+			if over {
+				r.BigAllocs++
 				r.Outcomes["alloc>budget"]++
 				send(vmsg{Class: "alloc", At: "-", Desc: inputDesc(in, desc), Hex: hexOf(in), I: i,
 					Detail: fmt.Sprintf("one call allocated %d bytes (TotalAlloc delta) for an input of %d bytes; budget 64 MiB + 64*len", alloc, len(in))})
 			}
 			if measure {
-				if alloc > allocBig {
-					r.BigAllocs++
-				}
-				gcPolicy(alloc, func() { r.Partial = true; emit(line{R: r}) })
+				gcPolicy(alloc, over, func() { r.Partial = true; emit(line{R: r}) })
 			}
 			return alloc
 		}
@@ -483,7 +491,7 @@ func childMain() {
 					one(k, true)
 				}
 			} else {
-				gcPolicy(d, func() { r.Partial = true; emit(line{R: r}) })
+				gcPolicy(d, false, func() { r.Partial = true; emit(line{R: r}) })
 			}
 		}
 		atomic.StoreUint64(&cell[1], ^uint64(0))
@@ -513,9 +521,9 @@ type worker struct {
 	out    *bufio.Scanner
 	cell   []uint64
 	stderr *tailBuf
-	mu     sync.Mutex  // guards cmd against the watchdog
-	gcOff  bool        // start the next child with the collector off (see gcPolicy)
-	dirty  bool        // the running child has the collector off
+	mu     sync.Mutex   // guards cmd against the watchdog
+	gcOff  bool         // start the next child with the collector off (see gcPolicy)
+	dirty  bool         // the running child has the collector off
 	cur    atomic.Value // string: the job being executed (diagnostics)
 	killed atomic.Bool  // set by the watchdog
 	since  atomic.Int64
@@ -548,12 +556,16 @@ func crashHead(stderr string) string {
 		return tail(stderr, 1500)
 	}
 	s := stderr[i:]
-	if k := strings.Index(s, "\n\ngoroutine "); k >= 0 {
-		if k2 := strings.Index(s[k+2:], "\n\n"); k2 >= 0 {
-			s = s[:k+2+k2]
+	for n, k := 0, 0; n < 3; n++ { // message + the first two goroutines (the first may be the system stack)
+		k2 := strings.Index(s[k:], "\n\n")
+		if k2 < 0 {
+			break
+		}
+		if k += k2 + 2; n == 2 {
+			s = s[:k]
 		}
 	}
-	return trunc(s, 2500)
+	return trunc(s, 4000)
 }
 
 var scratch string
@@ -784,7 +796,7 @@ func execJob(w *worker, j job) {
 			for _, fl := range r.Flaky {
 				c.CapHit("non-reproducible panic, not reported: " + fl)
 			}
-			if (r.Outcomes["alloc>budget"] > 0 || r.Stopped > 0) && f.phase != 2 {
+			if (r.Outcomes["alloc>budget"] > 0 || r.Stopped > 0) && f.raw() {
 				aggMu.Lock()
 				if flagged[j.T] == "" {
 					flagged[j.T] = "allocation beyond the budget in " + j.F
@@ -792,7 +804,7 @@ func execJob(w *worker, j job) {
 				aggMu.Unlock()
 			}
 			if big += r.BigAllocs; r.Stopped > 0 {
-				c.CapHit(fmt.Sprintf("%s %s: %d calls allocating more than 2 MiB in inputs [%d,%d), inputs [%d,%d) of this job skipped", j.T, j.F, big, j.Lo, r.Stopped, r.Stopped, j.Hi))
+				c.CapHit(fmt.Sprintf("%s %s: %d allocations beyond the budget in inputs [%d,%d), inputs [%d,%d) of this job skipped", j.T, j.F, big, j.Lo, r.Stopped, r.Stopped, j.Hi))
 				return
 			}
 		}
@@ -809,7 +821,7 @@ func execJob(w *worker, j job) {
 			evalsBy[j.T] += int64(ev.idx - lo + 1)
 			aggMu.Unlock()
 		}
-		if ev.kind == "crash" && !wasDirty && strings.Contains(ev.text, "out of memory") && retried != ev.idx {
+		if ev.kind == "crash" && !wasDirty && oomRe.MatchString(ev.text) && retried != ev.idx {
 			retried = ev.idx // the address space cap of a child with collector: repeat this input without collector
 			w.gcOff = true
 			lo = ev.idx
@@ -861,7 +873,7 @@ func execJob(w *worker, j job) {
 			}
 		}
 		aggMu.Lock()
-		if f.phase != 2 && flagged[j.T] == "" {
+		if f.raw() && flagged[j.T] == "" {
 			flagged[j.T] = fmt.Sprintf("%s at %s in %s", ev.kind, d, j.F)
 		}
 		aggMu.Unlock()
@@ -879,7 +891,6 @@ func tail(s string, n int) string {
 	return s
 }
 
-
 // crashSite: kind of fatal error / "goroutine-panic" and the first immudb frame of the crash report.
 func crashSite(stderr string) string {
 	s := crashHead(stderr)
@@ -887,6 +898,8 @@ func crashSite(stderr string) string {
 	switch {
 	case strings.HasPrefix(head, "panic: "):
 		head = "goroutine-panic"
+	case oomRe.MatchString(head):
+		head = "out-of-memory"
 	case strings.HasPrefix(head, "fatal error: "):
 		head = strings.ReplaceAll(strings.TrimPrefix(head, "fatal error: "), " ", "-")
 	default:
@@ -918,6 +931,7 @@ func runPhase(jobs []job) {
 	wg.Wait()
 }
 
+var oomRe = regexp.MustCompile(`out of memory|cannot allocate memory|cannot map pages|failed to (allocate|reserve)|errno=12`)
 var jobsDone int64
 var jobTime = map[string]float64{}
 
@@ -1004,7 +1018,7 @@ func main() {
 
 	total := 0
 	complete := true
-	for phase := 0; phase <= 3; phase++ {
+	for phase := 0; phase <= 4; phase++ {
 		var jobs []job
 		for _, t := range targets {
 			for _, f := range t.fams {
